@@ -389,7 +389,7 @@ func TestC01Exhaustive(t *testing.T) {
 			}
 			func() {
 				p := &P{T: t, base: base{id: "C01", r: r}}
-		p.self = p
+				p.self = p
 				defer p.finish()
 				p.caseVal = c
 				runC01(p, c)
